@@ -46,13 +46,12 @@ FINAL = ('FunctionDef', 'Lambda', 'Return')
 def pipeline(model):
   fi = model.func(API, 'PyToPy.transform_ast')
   seq = []
-  for n in ast.walk(fi.node):
+  for i, n in enumerate(core.preorder(fi.node)):     # program order
     if isinstance(n, ast.Call) and isinstance(n.func, ast.Attribute) and \
         n.func.attr == 'transform' and isinstance(n.func.value, ast.Name):
       r = model.resolve(fi.module, n.func.value)
       if r and r[0] == 'module' and r[1].name.startswith(CONV):
-        seq.append((n.lineno, n.col_offset, r[1].name[len(CONV):], r[1]))
-  seq.sort()
+        seq.append((i, 0, r[1].name[len(CONV):], r[1]))
   names = [s[2] for s in seq]
   if len(names) < 8:
     raise core.AnalysisError('transform_ast: only %d converter passes found' %
